@@ -20,8 +20,24 @@ pub mod c19;
 use crate::common::Tier;
 use serde_json::Value;
 
+/// manifest level of each property (also used by the termination watchdog's evidence)
+pub fn level_of(prop: &str) -> &'static str {
+    match prop {
+        "C01" | "C02" | "C03" | "C04" | "C08" | "C12" | "C17" | "C18" => "model_checking",
+        "C07" => "fault_enumeration",
+        _ => "exploration",
+    }
+}
+
+pub fn static_prop(prop: &str) -> &'static str {
+    ["C01", "C02", "C03", "C04", "C05", "C06", "C07", "C08", "C09", "C10", "C11", "C12", "C13", "C14", "C15", "C16", "C17", "C18", "C19"].into_iter().find(|p| *p == prop).unwrap_or("C00")
+}
+
 pub fn run(prop: &str, tier: Tier) -> i32 {
     crate::common::quiet_panics();
+    if prop != "C07" && prop != "C16" {
+        crate::common::start_watchdog(static_prop(prop), tier, level_of(prop), true);
+    }
     match prop {
         "C01" => c01::run(tier),
         "C02" => c02::run(tier),
@@ -50,6 +66,12 @@ pub fn run(prop: &str, tier: Tier) -> i32 {
 
 pub fn replay(prop: &str, case: &Value) -> Vec<String> {
     crate::common::quiet_panics();
+    // a replayed case may be one on which the library never returns
+    let run = |f: &dyn Fn() -> Vec<String>| -> Vec<String> { crate::common::watched(|| case.clone(), f) };
+    run(&|| replay_inner(prop, case))
+}
+
+fn replay_inner(prop: &str, case: &Value) -> Vec<String> {
     match prop {
         "C01" => c01::replay(case),
         "C02" => c02::replay(case),
